@@ -15739,7 +15739,13 @@ func (p *PathAttributeTunnelEncap) MarshalJSON() ([]byte, error) {
 func NewPathAttributeTunnelEncap(value []*TunnelEncapTLV) *PathAttributeTunnelEncap {
 	var l int
 	for _, v := range value {
-		l += v.Len()
+		// the sub-TLV constructors leave the cached Length unset (Serialize fills
+		// it in), so v.Len() is not usable before the first serialisation
+		if b, err := v.Serialize(); err == nil {
+			l += len(b)
+		} else {
+			l += v.Len()
+		}
 	}
 	t := BGP_ATTR_TYPE_TUNNEL_ENCAP
 	return &PathAttributeTunnelEncap{
